@@ -136,6 +136,43 @@ let place st (path : str) : string =
 (* outcomes of the sendfile calls of the next copy (op `inject`): -1 fails, n >= 0 moves at most n bytes *)
 let oracle : xfer list ref = ref []
 
+(* which system call of the next dunlink / purge fails (op `fault n`) *)
+let fault : nat option ref = ref None
+
+(* the Directory objects of the case (ops dopen / dreadall / dclose) *)
+let dirs : dirh option array = Array.make 4 None
+
+let reset_case () = oracle := []; fault := None; Array.fill dirs 0 4 None
+
+let entries_text (l : (str * bool) list) : string =
+  let toks = List.sort compare (List.map (fun (nm, d) -> (if nm = [] then "-" else hx nm) ^ (if d then ":d" else ":f")) l) in
+  if toks = [] then "-" else String.concat " " toks
+
+(* read() until false, then two more reads: how many say true *)
+let read_all_text st cur =
+  let (cur1, l) = d_read_all (read_all_fuel cur) st cur in
+  let (cur2, r1) = d_read st cur1 in
+  let (cur3, r2) = d_read st cur2 in
+  let more = (match r1 with Some _ -> 1 | None -> 0) + (match r2 with Some _ -> 1 | None -> 0) in
+  (cur3, Printf.sprintf "%s end=%d" (entries_text l) more)
+
+let str_of_string (x : string) : str = List.init (String.length x) (fun i -> z_of_int (Char.code x.[i]))
+
+(* a relative text of plain names through real directories (the class of the purge theorem):
+   Some (names, c) when the text is names/c of that class *)
+let plain_class (st : state) (path : str) : (str list * str) option =
+  let s = text path in
+  if s = "" || String.contains s '\\' then None else
+  let parts = String.split_on_char '/' s in
+  if List.exists (fun x -> x = "" || x = "." || x = "..") parts then None else
+  let names = List.map str_of_string parts in
+  let rec real d = function
+    | [] -> true
+    | n :: t -> (match get st.root (d @ [n]) with Some (NDir _) -> real (d @ [n]) t | _ -> false) in
+  if real st.cwd names then
+    (match List.rev names with c :: up -> Some (List.rev up, c) | [] -> None)
+  else None
+
 let fs_op (mode : [`Model | `Spec]) (st : state) toks : state =
   let fin ?(pre = []) ?(post = []) st' res =
     (match mode with
@@ -163,11 +200,11 @@ let fs_op (mode : [`Model | `Spec]) (st : state) toks : state =
       let (s, b) = f_open st (nat h) (p a) (fl land 1 <> 0) (fl land 2 <> 0) (fl land 4 <> 0) (fl land 8 <> 0) in
       fin ~post:["d", true, p a] s (b01 b)
   | ["close"; h] -> fin (f_close st (nat h)) "-"
-  | [("write" | "read" | "readall" | "seek" | "size"); h] | [("write" | "read" | "readall" | "seek" | "size" | "writebig"); h; _]
+  | [("write" | "read" | "readall" | "seek" | "size" | "flush"); h] | [("write" | "read" | "readall" | "seek" | "size" | "writebig"); h; _]
   | [("write" | "read" | "readall" | "seek" | "size" | "writebig"); h; _; _]
     when not (is_open st (nat h)) -> fin st "?closed"
-  | [("readall" | "size" | "seek" | "read" | "write"); h] | [("readall" | "size" | "seek" | "read" | "write" | "writebig"); h; _]
-  | [("readall" | "size" | "seek" | "read" | "write" | "writebig"); h; _; _]
+  | [("size" | "seek" | "read" | "write"); h] | [("size" | "seek" | "read" | "write" | "writebig"); h; _]
+  | [("size" | "seek" | "read" | "write" | "writebig"); h; _; _]
     when is_dir_handle st (nat h) -> fin st "?dir"
   | ["write"; h; d] -> let (s, b) = f_write st (nat h) (p d) in fin ~pre:(tprobe h) s (b01 b)
   | ["writebig"; h; seed; n] ->
@@ -179,6 +216,64 @@ let fs_op (mode : [`Model | `Spec]) (st : state) toks : state =
   | ["seek"; h; off; wh] ->
       let (s, z) = f_seek st (nat h) (z_of_int (int_of_string off)) (nat wh) in fin ~pre:(tprobe h) s (dec_of_z z)
   | ["size"; h] -> let (s, z) = f_size st (nat h) in fin ~pre:(tprobe h) s (dec_of_z z)
+  | ["flush"; h] -> let (s, b) = f_flush st (nat h) in fin ~pre:(tprobe h) s (b01 b)
+  | ["readallp"; a] ->
+      (match mode with
+       | `Model -> let (s, (b, d)) = f_readAll_path st (p a) in fin ~pre:[now "s" true (p a)] s (b01 b ^ " " ^ render d)
+       | `Spec ->
+           (* the text: the bytes of the regular file the path leads to; failure for anything else; nothing changes *)
+           (match resolve st true (p a) with
+            | WAt (d, nm, Some SFile) ->
+                (match get st.root (d @ [nm]) with
+                 | Some (NFile c) -> fin st ("1 " ^ render c)
+                 | _ -> fin st "0 -")
+            | _ -> fin st "0 -"))
+  | ["fexists"; a] -> fin ~pre:[now "s" false (p a)] st (b01 (f_exists st (p a)))
+  | ["cwd"] -> fin st (hx (cwd_text st))
+  | ["abspath"; a] ->
+      let r = (match mode with
+               | `Model -> f_absolute st (p a)
+               | `Spec -> if spec_is_absolute (p a) then p a else cwd_text st @ (z_of_int 47 :: p a)) in
+      let same fl = if probe st fl r = probe st fl (p a) &&
+                       ((match resolve st fl r with WErr _ -> 0 | WAt (_, _, None) -> 0 | _ -> 1)
+                        = (match resolve st fl (p a) with WErr _ -> 0 | WAt (_, _, None) -> 0 | _ -> 1)) then "1" else "0" in
+      (match mode with
+       | `Model -> fin st (Printf.sprintf "%s %s %s" (hx r) (same true) (same false))
+       | `Spec -> fin st (Printf.sprintf "%s %s %s" (hx r) (if p a = [] then "?" else "1") (if p a = [] then "?" else "1")))
+  | ["chdir"; a] -> let (s, b) = d_change st (p a) in fin ~pre:[now "s" true (p a)] s (b01 b)
+  | ["dlist"; a; pat; only] ->
+      let pre = [now "s" true (open_text (p a))] in
+      (match mode with
+       | `Model ->
+           let (cur, ok) = d_open st None (p a) (p pat) (only = "1") in
+           if not ok then fin ~pre st "0"
+           else let (_, t) = read_all_text st cur in fin ~pre st ("1 " ^ t)
+       | `Spec ->
+           (match spec_list st (p a) (p pat) (only = "1") with
+            | None -> fin st "0"
+            | Some l -> fin st (Printf.sprintf "1 %s end=0" (entries_text l))))
+  | ["dopen"; k; a; pat; only] ->
+      let k = (int_of_string k) land 3 in
+      let (cur, ok) = d_open st dirs.(k) (p a) (p pat) (only = "1") in
+      dirs.(k) <- cur;
+      fin ~pre:[now "s" true (open_text (p a))] st (b01 ok)
+  | ["dreadall"; k] ->
+      let k = (int_of_string k) land 3 in
+      let (cur, t) = read_all_text st dirs.(k) in
+      dirs.(k) <- cur;
+      fin st ("r " ^ t)
+  | ["dclose"; k] -> let k = (int_of_string k) land 3 in dirs.(k) <- d_close dirs.(k); fin st "-"
+  | ["fault"; n] -> fault := Some (nat n); fin st "-"
+  | ["purge"; a; r] ->
+      let o = !fault in fault := None;
+      let (s, b) = d_purge_o (unlink_fuel st) o st (p a) (r = "1") in
+      let s = (match mode, o, b, plain_class st (p a) with
+               | `Spec, None, true, Some (names, c) ->
+                   (* the text, for a relative path of plain names: the directory is cut out, and so is every
+                      ancestor below the current directory that this leaves empty *)
+                   { s with root = purged st.root st.cwd names c }
+               | _ -> s) in
+      fin ~pre:[now "s" false (p a)] s (b01 b ^ " " ^ b01 (d_exists s (p a)))
   | ["funlink"; a] -> let (s, b) = f_unlink st (p a) in fin ~pre:[now "s" false (p a)] s (b01 b)
   | ["symlink"; t; a] -> let (s, b) = f_symlink st (p t) (p a) in fin ~post:["d", false, p a] s (b01 b)
   | ["rename"; a; b; fie] ->
@@ -194,14 +289,17 @@ let fs_op (mode : [`Model | `Spec]) (st : state) toks : state =
       (* second token: does the directory exist afterwards (the clause of the property) *)
       fin ~post:["d", true, p a] s (b01 b ^ " " ^ b01 (d_exists s (p a)))
   | ["dunlink"; a; r] ->
-      let (s, b) = d_unlink (unlink_fuel st) st (p a) (r = "1") in
+      let o = !fault in fault := None;
+      let (s, b) = (match o with
+                    | None -> d_unlink (unlink_fuel st) st (p a) (r = "1")
+                    | Some _ -> let ((s, b), _) = d_unlink_o (unlink_fuel st) o st (p a) (r = "1") in (s, b)) in
       fin ~pre:[now "s" false (p a)] s (b01 b ^ " " ^ b01 (d_exists s (p a)))
   | _ -> failwith ("bad op: " ^ String.concat " " toks)
 
 let () =
   let mode = Sys.argv.(1) and file = Sys.argv.(2) in
   let m = if mode = "model" then `Model else `Spec in
-  run_cases file (fun _ -> init_state)
+  run_cases file (fun _ -> reset_case (); init_state)
     (fun st _ toks ->
        match toks with
        | ("parts" | "basex" | "simp" | "abs" | "rel") :: _ -> path_op m toks; st
